@@ -26,7 +26,9 @@ namespace mustache {
         }
 
         decltype(auto) operator[](size_t i) const noexcept {
-            if constexpr(_IsRequired) {
+            if constexpr (std::is_base_of<SharedComponentTag, T>::value) {
+                return *ptr_; // one instance per archetype, shared by every entity of the array
+            } else if constexpr(_IsRequired) {
                 return ptr_[i];
             } else {
                 return ComponentHandler{ptr_ + i * (ptr_ != nullptr)};
